@@ -137,6 +137,29 @@ fn gen_c13(tier: &str, rng: &mut Rng, emit: &mut dyn FnMut(Op)) {
             [(70000, Some(69000)), (70000, Some(65533)), (70000, None), (9000, Some(8190)), (33000, Some(32766)), (70000, Some(65536))]
                 .iter().cloned().enumerate().filter(|(i, _)| i % 6 == alg).map(|(_, c)| c).collect()
         };
+        // a kept line larger than any plausible block (after other kept bytes), and an unbroken run
+        // of marker lines far longer than any stack is deep: one algorithm each in the quick tier
+        if thorough || alg == 0 || alg == 3 {
+            for len in [131072usize, 140000, 300000] {
+                let line: Vec<u8> = (0..len).map(|i| b"abcdefghij klmnop"[i % 17]).collect();
+                let mut d: Vec<u8> = b"first\n".to_vec();
+                d.extend(&line);
+                d.extend(b"\n");
+                d.extend(&line);
+                d.extend(b"\nlast\n");
+                emit(Op::new("digest.hash", &[alg.to_string().as_bytes(), b"p", b"", &d]));
+            }
+        }
+        if thorough || alg == 1 || alg == 4 {
+            for run in [5000usize, 120000] {
+                let mut d: Vec<u8> = b"kept\n".to_vec();
+                for _ in 0..run {
+                    d.extend(b"$NetBSD\n");
+                }
+                d.extend(b"kept too\n");
+                emit(Op::new("digest.hash", &[alg.to_string().as_bytes(), b"p", b"", &d]));
+            }
+        }
         for (len, at) in long_cases {
             let mut line: Vec<u8> = (0..len).map(|i| b"abcdefghij klmnop"[i % 17]).collect();
             if let Some(k) = at {
